@@ -300,6 +300,11 @@ def _modes(nxe, nye, c):
     opts = [[512, 512]]
     if even:
         opts += [[nxe, nye], [nxe - 4, nye - 2], [4, 4]]
+    elif nxe % 2 == 0 or nye % 2 == 0:
+        # one odd axis (only the clamp is admissible there) and one even axis, which is really truncated
+        def ax(n):
+            return 512 if n % 2 else [max(n - 4, 2), 4, n][c % 3]
+        return [ax(nxe), ax(nye)]
     return opts[c % len(opts)]
 
 
@@ -325,7 +330,8 @@ def generate(tier, rng):
     reps = 3 if thorough else 1
     # ---- means / footprint sums on the explicitly padded domain
     shapes = [(8, 6, 10.0, 7.5, 2, 2), (7, 5, 10.0, 10.0, 3, 1), (12, 8, 5.0, 8.0, 0, 0),
-              (6, 9, 4.0, 6.0, 2, 3), (16, 12, 10.0, 7.5, 4, 6), (5, 5, 20.0, 15.0, 5, 7)]
+              (6, 9, 4.0, 6.0, 2, 3), (16, 12, 10.0, 7.5, 4, 6), (5, 5, 20.0, 15.0, 5, 7),
+              (12, 9, 5.0, 8.0, 1, 2), (9, 12, 6.0, 4.0, 2, 1)]
     c = 0
     for rep in range(reps):
         for (nx, ny, dx, dy, px, py) in shapes:
